@@ -2450,12 +2450,19 @@ impl BrailleChars {
         // 1. we deal with switching '.' and ',' if in English style for numbers
         // 2. if it is identified as a Roman Numeral, we make all but the first char lower case because they shouldn't get a cap indicator
         // 3. double letter chemical elements should NOT be part of a cap word sequence
-        if name(&node) == "mn" {
+        // 'node' is part of the expression that was set with set_mathml() and is used again by later calls (speech, other braille codes,
+        // navigation), so the changes to the text of an 'mn' made below are undone as soon as the braille chars have been computed
+        let saved_mn_text = if name(&node) == "mn" {Some(as_text(node).to_string())} else {None};
+        if saved_mn_text.is_some() {
             // text of element is modified by these if needed
             lower_case_roman_numerals(node);
             switch_if_english_style_number(node);
         }
-        let mut result = BrailleChars::get_braille_ueb_chars(node, text_range)?;
+        let result = BrailleChars::get_braille_ueb_chars(node, text_range);
+        if let Some(original_text) = saved_mn_text {
+            node.set_text(&original_text);
+        }
+        let mut result = result?;
         if let Some(value) = node.attribute_value("data-chem-element") {
             if value != "1" {
                 result = result.replace("CL", "𝐶L");
